@@ -7,6 +7,7 @@ import Fdo.Drv.Voucher
 import Fdo.Drv.TO0
 import Fdo.Drv.TO1
 import Fdo.Drv.TO2Dev
+import Fdo.Drv.Tunnel
 import Fdo.Drv.Chunk
 import Fdo.Drv.Rv
 /-
@@ -26,6 +27,7 @@ def handlers : List (String × (String → List String → Option String)) := [
   ("to0.", Drv.TO0.handle),
   ("to1.", Drv.TO1.handle),
   ("to2dev.", Drv.TO2Dev.handle),
+  ("tunnel.", Drv.Tunnel.handle),
   ("chunk.", Drv.Chunk.handle),
   ("rv.", Drv.Rv.handle),
 ]
